@@ -793,6 +793,18 @@ func newFH(cfg FCfg) *fh {
 		}
 	}
 
+	for _, t := range cfg.Tags {
+		if t == "failexpired" {
+			// the cached failures above are left in the failure cache as expired entries
+			d := 25 * time.Second
+			if ft > 0 {
+				d = ft + 5*time.Second
+			}
+
+			vclock.Advance(d)
+		}
+	}
+
 	if h.walkFail {
 		h.front.WalkFail()
 	}
